@@ -31,6 +31,18 @@ theorem keys_filter_notKey (k : Nat) (l : List Entry) : keys (l.filter (entryNot
 theorem mem_filter_notKey (k : Nat) (l : List Entry) (e : Entry) : e ∈ l.filter (entryNotKey k) ↔ e ∈ l ∧ e.key ≠ k := by
   simp [List.mem_filter, entryNotKey]
 
+theorem eq_of_key_eq (l : List Entry) (hn : (keys l).Nodup) (e x : Entry) (he : e ∈ l) (hx : x ∈ l) (hk : e.key = x.key) :
+    e = x := by
+  induction l with
+  | nil => cases he
+  | cons y ys ih =>
+    have hn' : y.key ∉ keys ys ∧ (keys ys).Nodup := by simpa [keys] using hn
+    rcases List.mem_cons.mp he with h1 | h1 <;> rcases List.mem_cons.mp hx with h2 | h2
+    · rw [h1, h2]
+    · exact absurd (by rw [← h1, hk]; exact List.mem_map_of_mem (f := Entry.key) h2) hn'.1
+    · exact absurd (by rw [← h2, ← hk]; exact List.mem_map_of_mem (f := Entry.key) h1) hn'.1
+    · exact ih hn'.2 h1 h2
+
 /-! ### isolation and discovery -/
 
 /-- C17 (isolation): an announcement that carries a different domain id, or a different domain tag, changes NOTHING in the
@@ -38,7 +50,7 @@ theorem mem_filter_notKey (k : Nat) (l : List Entry) (e : Entry) : e ∈ l.filte
 theorem C17_isolation (s : St) (d : Data) (now : Nat)
     (h : (∃ x, d.domainId = some x ∧ x ≠ s.domainId) ∨ d.tag ≠ s.tag) :
     addDiscovered s d now = (s, false) := by
-  unfold addDiscovered accepts domainIdMatches
+  unfold addDiscovered acceptable domainIdMatches
   rcases h with ⟨x, hx, hne⟩ | h
   · simp [hx, hne]
   · simp [h]
@@ -52,37 +64,98 @@ theorem C17_isolation_keys (s : St) (d : Data) (now : Nat)
   rw [C17_isolation _ d now h']
   exact ⟨keys_touchList _ _ _, rfl⟩
 
-/-- C17 (discovery): an announcement with the same domain tag and the same (or no) domain id, from a participant that is
-    not ignored, leaves that participant in the discovered list — whatever the state before -/
-theorem C17_discover (s : St) (d : Data) (now : Nat) (hid : d.domainId = none ∨ d.domainId = some s.domainId)
-    (htag : d.tag = s.tag) (hign : d.key ∉ s.ignored) : d.key ∈ keys (spdp s d now).1.list := by
-  unfold spdp addDiscovered
-  by_cases hk : d.key ∈ keys s.list
-  · have hk' : d.key ∈ keys (touch s d.key now).list := by simpa [touch, keys_touchList] using hk
+theorem keys_refreshList (d : Data) (now : Nat) (l : List Entry) : keys (refreshList d now l) = keys l := by
+  induction l with
+  | nil => rfl
+  | cons e es ih =>
+    unfold refreshList
     split
-    · simp only [keys, List.map_append, List.mem_append]; exact Or.inl hk'
-    · exact hk'
-  · have hacc : accepts (touch s d.key now) d = true := by
-      have h1 : ¬ ((touch s d.key now).list.any (entryHasKey d.key) = true) := by
-        rw [any_hasKey_iff]; simpa [touch, keys_touchList] using hk
-      have e1 : domainIdMatches (touch s d.key now) d = true := by
-        rcases hid with h | h <;> simp [domainIdMatches, h, touch]
-      have e2 : (d.tag == (touch s d.key now).tag) = true := by simp [touch, htag]
-      have e3 : (touch s d.key now).list.any (entryHasKey d.key) = false := by
-        cases hh : (touch s d.key now).list.any (entryHasKey d.key) with
-        | true => exact absurd hh h1
-        | false => rfl
-      have e4' : d.key ∉ (touch s d.key now).ignored := by simpa [touch] using hign
-      simp [accepts, e1, e2, e3, e4']
-    simp [hacc, keys]
+    · rename_i h; simp [keys, beq_iff_eq.mp h]
+    · simp only [keys, List.map_cons] at ih ⊢
+      rw [ih]
 
-/-- a fresh entry carries the announced lease and the reception time -/
-theorem C17_discover_entry (s : St) (d : Data) (now : Nat) (h : (spdp s d now).2 = true) :
-    (⟨d.key, d.lease, now⟩ : Entry) ∈ (spdp s d now).1.list := by
-  unfold spdp addDiscovered at h ⊢
-  split at h
-  · rename_i hacc; simp [hacc]
-  · simp at h
+theorem mem_refreshList (d : Data) (now : Nat) (l : List Entry) (h : d.key ∈ keys l) :
+    (⟨d.key, d.lease, now⟩ : Entry) ∈ refreshList d now l := by
+  induction l with
+  | nil => simp [keys] at h
+  | cons e es ih =>
+    unfold refreshList
+    split
+    · simp
+    · rename_i hne
+      have : d.key ∈ keys es := by
+        simp only [keys, List.map_cons, List.mem_cons] at h
+        rcases h with h | h
+        · exact absurd (beq_iff_eq.mpr h.symm) hne
+        · exact h
+      exact List.mem_cons_of_mem _ (ih this)
+
+/-- what add_discovered_participant can do to a state: nothing but the list changes; the listed keys stay, or the announcing
+    participant — acceptable, not listed, not ignored — is appended -/
+theorem addDiscovered_spec (s : St) (d : Data) (now : Nat) :
+    (addDiscovered s d now).1.ignored = s.ignored ∧ (addDiscovered s d now).1.enabled = s.enabled ∧
+    ((keys (addDiscovered s d now).1.list = keys s.list ∧ (addDiscovered s d now).2 = false) ∨
+     (acceptable s d = true ∧ d.key ∉ keys s.list ∧ (addDiscovered s d now).1.list = s.list ++ [⟨d.key, d.lease, now⟩] ∧
+      (addDiscovered s d now).2 = true)) := by
+  unfold addDiscovered
+  split
+  · rename_i hacc
+    split
+    · exact ⟨rfl, rfl, Or.inl ⟨keys_refreshList _ _ _, rfl⟩⟩
+    · rename_i hk
+      exact ⟨rfl, rfl, Or.inr ⟨hacc, fun hm => hk ((any_hasKey_iff _ _).mpr hm), rfl, rfl⟩⟩
+  · exact ⟨rfl, rfl, Or.inl ⟨rfl, rfl⟩⟩
+
+theorem acceptable_touch (s : St) (d : Data) (k now : Nat) : acceptable (touch s k now) d = acceptable s d := rfl
+
+theorem acceptable_of (s : St) (d : Data) (hid : d.domainId = none ∨ d.domainId = some s.domainId)
+    (htag : d.tag = s.tag) (hign : d.key ∉ s.ignored) : acceptable s d = true := by
+  have e1 : domainIdMatches s d = true := by rcases hid with h | h <;> simp [domainIdMatches, h]
+  simp [acceptable, e1, htag, hign]
+
+/-- C17 (discovery and refresh): an announcement with the same domain tag and the same (or no) domain id, from a participant
+    that is not ignored, leaves that participant in the discovered list WITH the lease it announces now and the reception time
+    as stamp — whether it was listed before or not, whatever the state -/
+theorem C17_discover (s : St) (d : Data) (now : Nat) (hid : d.domainId = none ∨ d.domainId = some s.domainId)
+    (htag : d.tag = s.tag) (hign : d.key ∉ s.ignored) :
+    (⟨d.key, d.lease, now⟩ : Entry) ∈ (spdp s d now).1.list ∧ d.key ∈ keys (spdp s d now).1.list := by
+  have hacc : acceptable (touch s d.key now) d = true := by rw [acceptable_touch]; exact acceptable_of s d hid htag hign
+  have hm : (⟨d.key, d.lease, now⟩ : Entry) ∈ (spdp s d now).1.list := by
+    unfold spdp addDiscovered
+    simp only [hacc, if_true]
+    split
+    · rename_i hk
+      exact mem_refreshList d now _ ((any_hasKey_iff _ _).mp hk)
+    · simp
+  exact ⟨hm, List.mem_map_of_mem (f := Entry.key) hm⟩
+
+/-- the lease in force is the one announced LAST: after an acceptable announcement every entry of that participant carries
+    the announced lease (there is exactly one, `C17_keys_unique`) -/
+theorem C17_lease_refresh (s : St) (d : Data) (now : Nat) (hid : d.domainId = none ∨ d.domainId = some s.domainId)
+    (htag : d.tag = s.tag) (hign : d.key ∉ s.ignored) (hu : (keys s.list).Nodup) :
+    ∀ e ∈ (spdp s d now).1.list, e.key = d.key → e.lease = d.lease ∧ e.lastSeen = now := by
+  intro e he hk
+  have hm := (C17_discover s d now hid htag hign).1
+  have hu' : (keys (spdp s d now).1.list).Nodup := by
+    have hsp := addDiscovered_spec (touch s d.key now) d now
+    rcases hsp.2.2 with h | h
+    · show (keys (addDiscovered (touch s d.key now) d now).1.list).Nodup
+      rw [h.1]; simpa [touch, keys_touchList] using hu
+    · show (keys (addDiscovered (touch s d.key now) d now).1.list).Nodup
+      rw [h.2.2.1]
+      simp only [keys, List.map_append, List.map_cons, List.map_nil]
+      rw [List.nodup_append]
+      have hut : (List.map Entry.key (touch s d.key now).list).Nodup := by
+        have := keys_touchList d.key now s.list
+        unfold keys at this hu
+        rw [show (touch s d.key now).list = touchList d.key now s.list from rfl, this]; exact hu
+      refine ⟨hut, by simp, ?_⟩
+      intro a ha b hb
+      simp only [List.mem_singleton] at hb
+      subst hb
+      exact fun e => h.2.1 (e ▸ ha)
+  have : e = ⟨d.key, d.lease, now⟩ := eq_of_key_eq _ hu' e _ he hm hk
+  rw [this]; exact ⟨rfl, rfl⟩
 
 /-! ### uniqueness of keys -/
 
@@ -108,23 +181,19 @@ theorem tickLoop_sublist (fuel now : Nat) : ∀ l : List Entry, (tickLoop fuel n
 theorem step_unique (s : St) (x : Step) (h : Unique s) : Unique (step s x) := by
   cases x with
   | spdp d now =>
-    simp only [step, spdp, addDiscovered]
     have ht := touch_unique s d.key now h
-    split
-    · rename_i hacc
-      simp only [accepts, Bool.and_eq_true, Bool.not_eq_true'] at hacc
-      have hk : d.key ∉ keys (touch s d.key now).list := by
-        intro hm
-        have := (any_hasKey_iff _ _).mpr hm
-        simp [this] at hacc
-      simp only [Unique, keys, List.map_append, List.map_cons, List.map_nil]
+    have hsp := addDiscovered_spec (touch s d.key now) d now
+    simp only [step, spdp, Unique]
+    rcases hsp.2.2 with h1 | h1
+    · rw [h1.1]; exact ht
+    · rw [h1.2.2.1]
+      simp only [keys, List.map_append, List.map_cons, List.map_nil]
       rw [List.nodup_append]
       refine ⟨ht, by simp, ?_⟩
       intro a ha b hb
       simp only [List.mem_singleton] at hb
       subst hb
-      exact fun e => hk (e ▸ ha)
-    · exact ht
+      exact fun e => h1.2.1 (e ▸ ha)
   | activity k now => exact touch_unique s k now h
   | tick now =>
     simp only [step, tick, Unique]
@@ -146,18 +215,6 @@ theorem C17_keys_unique (domainId : Nat) (tag : String) (ops : List Step) : Uniq
   | cons x xs ih => intro s h; exact ih _ (step_unique s x h)
 
 /-! ### lease: lower bound -/
-
-theorem eq_of_key_eq (l : List Entry) (hn : (keys l).Nodup) (e x : Entry) (he : e ∈ l) (hx : x ∈ l) (hk : e.key = x.key) :
-    e = x := by
-  induction l with
-  | nil => cases he
-  | cons y ys ih =>
-    have hn' : y.key ∉ keys ys ∧ (keys ys).Nodup := by simpa [keys] using hn
-    rcases List.mem_cons.mp he with h1 | h1 <;> rcases List.mem_cons.mp hx with h2 | h2
-    · rw [h1, h2]
-    · exact absurd (by rw [← h1, hk]; exact List.mem_map_of_mem (f := Entry.key) h2) hn'.1
-    · exact absurd (by rw [← h2, ← hk]; exact List.mem_map_of_mem (f := Entry.key) h1) hn'.1
-    · exact ih hn'.2 h1 h2
 
 theorem tickLoop_keeps (fuel now : Nat) : ∀ (l : List Entry), (keys l).Nodup → ∀ e ∈ l, stale now e = false → e ∈ tickLoop fuel now l := by
   induction fuel with
@@ -195,11 +252,13 @@ theorem C17_removed_only_by (s : St) (hu : Unique s) (x : Step) (k : Nat) (hb : 
   cases x with
   | spdp d now =>
     exfalso; apply ha
-    simp only [step, spdp, addDiscovered]
     have hk' : k ∈ keys (touch s d.key now).list := by simpa [touch, keys_touchList] using hb
-    split
-    · simp only [keys, List.map_append, List.mem_append]; exact Or.inl hk'
-    · exact hk'
+    have hsp := addDiscovered_spec (touch s d.key now) d now
+    simp only [step, spdp]
+    rcases hsp.2.2 with h1 | h1
+    · rw [h1.1]; exact hk'
+    · rw [h1.2.2.1]
+      simp only [keys, List.map_append, List.mem_append]; exact Or.inl hk'
   | activity k' now =>
     exfalso; apply ha
     simpa [step, touch, keys_touchList] using hb
@@ -280,8 +339,9 @@ def IgnoredOut (s : St) : Prop := ∀ h ∈ s.ignored, h ∉ keys s.list
 theorem step_ignored_mono (s : St) (x : Step) (h : Nat) (hi : h ∈ s.ignored) : h ∈ (step s x).ignored := by
   cases x with
   | spdp d now =>
-    simp only [step, spdp, addDiscovered]
-    split <;> simpa [touch] using hi
+    simp only [step, spdp]
+    rw [(addDiscovered_spec (touch s d.key now) d now).1]
+    simpa [touch] using hi
   | activity k now => simpa [step, touch] using hi
   | tick now => simpa [step, tick] using hi
   | ignore h' =>
@@ -296,20 +356,23 @@ theorem step_ignored_mono (s : St) (x : Step) (h : Nat) (hi : h ∈ s.ignored) :
 theorem step_ignoredOut (s : St) (x : Step) (hio : IgnoredOut s) : IgnoredOut (step s x) := by
   cases x with
   | spdp d now =>
-    simp only [step, spdp, addDiscovered]
     have ht : IgnoredOut (touch s d.key now) := by
       intro h hh; simpa [touch, keys_touchList] using hio h (by simpa [touch] using hh)
-    split
-    · rename_i hacc
-      intro h hh
+    have hsp := addDiscovered_spec (touch s d.key now) d now
+    intro h hh
+    simp only [step, spdp] at hh ⊢
+    rw [hsp.1] at hh
+    rcases hsp.2.2 with h1 | h1
+    · rw [h1.1]; exact ht h hh
+    · rw [h1.2.2.1]
       simp only [keys, List.map_append, List.map_cons, List.map_nil, List.mem_append, List.mem_singleton]
       rintro (hm | hm)
       · exact ht h hh hm
-      · simp only [accepts, Bool.and_eq_true, Bool.not_eq_true'] at hacc
+      · have hacc := h1.1
+        simp only [acceptable, Bool.and_eq_true, Bool.not_eq_true'] at hacc
         have : (touch s d.key now).ignored.contains d.key = false := hacc.2
         rw [hm] at hh
-        simp [List.contains_iff_mem, hh] at this
-    · exact ht
+        simp [hh] at this
   | activity k now =>
     intro h hh; simpa [step, touch, keys_touchList] using hio h (by simpa [step, touch] using hh)
   | tick now =>
@@ -357,7 +420,7 @@ theorem run_enabled (ops : List Step) : ∀ s, (run s ops).enabled = s.enabled :
     simp only [run]
     rw [ih]
     cases x with
-    | spdp d now => simp only [step, spdp, addDiscovered]; split <;> rfl
+    | spdp d now => simp only [step, spdp]; rw [(addDiscovered_spec (touch s d.key now) d now).2.1]; rfl
     | activity k now => rfl
     | tick now => rfl
     | ignore h =>
@@ -385,14 +448,15 @@ theorem C17_ignored_forever (domainId : Nat) (tag : String) (ops1 ops2 : List St
     · simp [remove]
   exact run_ignoredOut ops2 _ h2 h (run_ignored_mono ops2 h _ h3)
 
-/-! ### a changed lease is ignored (open finding) -/
+/-! ### a changed lease was ignored (repaired defect D-spdp-1) -/
 
-/-- the participant data of an already discovered participant is never updated (`!is_participant_discovered`): announced with a
-    lease of 2 s, then — 1 s later — with a lease of 100 s, the participant is removed after 2 s of silence, i.e. EARLIER than the
-    lease it last announced; and the other way round (100 s, then 2 s) it stays for 100 s -/
-theorem C17_lease_update_counterexample :
-    keys (run (St.init 0 "") [.spdp ⟨5, some 0, "", 2000000000⟩ 0, .spdp ⟨5, some 0, "", 100000000000⟩ 1000000000, .tick 3000000001]).list = [] ∧
-    keys (run (St.init 0 "") [.spdp ⟨5, some 0, "", 100000000000⟩ 0, .spdp ⟨5, some 0, "", 2000000000⟩ 1000000000, .tick 50000000000]).list = [5] := by
+/-- regression witness: before the repair the data of an already discovered participant was never updated: announced with a
+    lease of 2 s, then — 1 s later — with a lease of 100 s, the participant was removed after 2 s of silence, i.e. EARLIER
+    than the lease it last announced; the repaired code keeps it -/
+theorem C17_lease_update_old_counterexample :
+    keys (tick (spdpOld (spdpOld (St.init 0 "") ⟨5, some 0, "", 2000000000⟩ 0).1 ⟨5, some 0, "", 100000000000⟩ 1000000000).1 3000000001).list = [] ∧
+    keys (run (St.init 0 "") [.spdp ⟨5, some 0, "", 2000000000⟩ 0, .spdp ⟨5, some 0, "", 100000000000⟩ 1000000000, .tick 3000000001]).list = [5] ∧
+    keys (run (St.init 0 "") [.spdp ⟨5, some 0, "", 100000000000⟩ 0, .spdp ⟨5, some 0, "", 2000000000⟩ 1000000000, .tick 50000000000]).list = [] := by
   decide
 
 /-! ### from one participant to the world -/
